@@ -380,8 +380,21 @@ func init() {
 			}
 			// OnePrincipalOneDid
 			if o.parsed && o.pub != nil {
-				back, err := did.FromPubKey(o.pub)
-				if err != nil {
+				var back did.DID
+				var err error
+				func() {
+					// a key that PubKey handed out is a key: using it must not bring the caller down
+					defer func() {
+						if r := recover(); r != nil {
+							err = fmt.Errorf("panic: %v", r)
+						}
+					}()
+					_, _ = o.pub.Raw()
+					back, err = did.FromPubKey(o.pub)
+				}()
+				if err != nil && strings.HasPrefix(err.Error(), "panic") {
+					rep.violation(cs, "a key or an error", err.Error(), "PubKey returned a key that panics when it is used (key extraction returns a key or an error)")
+				} else if err != nil {
 					rep.violation(cs, "a DID", err.Error(), "FromPubKey fails on a key extracted from an accepted identifier")
 				} else if back != o.d {
 					rep.violation(cs, back.String(), o.d.String(), "an accepted identifier with an extractable key is not the canonical identifier of that key (one principal, two DIDs)")
